@@ -1,6 +1,6 @@
 package reader
 
-// F11 (C13): the partition consumer that CollectionReader.StartRead registers returned true ("consumed") for a
+// F22 (C13): the partition consumer that CollectionReader.StartRead registers returned true ("consumed") for a
 // partition whose collection its task does NOT replicate.  The dispatcher of the shared EtcdOp (etcd_op.go, the
 // subscribePartitionEvent.Range loops) stops at the first consumer that returns true, so with two tasks on one
 // source the new partition of task B's collection was swallowed by task A: B never registered the partition
